@@ -13,7 +13,8 @@ use serde_json::{json, Value};
 const RULE: &str = "cells r = 0..29 (encoder cells of every face/quintant/position class; 40% found by lookup at pole, \
 antimeridian, vertex and seam points). For each: the reported centre, and interior points built in the face plane \
 (random convex combinations of the corners; corner + 1e-4 (centre - corner); points 10^U(-6,-2) cell sizes inside an \
-edge), unprojected and converted to lon/lat by the harness. Oracle: the lookup at the cell's own resolution returns the \
+edge), unprojected and converted to lon/lat by the harness, and points on the sphere between the reported centre and \
+the reported boundary ring. Oracle: the lookup at the cell's own resolution returns the \
 cell; asserted when the planar margin of the generated point is >= 2e-12 (centre always). non-trivial = r >= 2 and \
 (the point is not the centre, or margin < 1e-3 cell sizes, or the cell was chosen at a special point); distinct by \
 (cell ID, point bits).";
@@ -76,7 +77,28 @@ fn check_case(case: &Case, st: &mut Stats) -> Result<(), String> {
     let ccw = poly_area2(&pent) >= 0.0;
     for (kind, idx, u1, u2, w) in &case.points {
         let i = *idx as usize % n;
-        let q = match kind % 3 {
+        if kind % 4 == 3 {
+            // a point built from the *reported* geometry only: between the reported centre and a point
+            // of the reported boundary ring, on the sphere; interiority is then judged by the planar oracle
+            let ring = api::boundary_vecs(id, 8)?;
+            let b = ring[(*idx as usize * 7 + (u2 * 40.0) as usize) % ring.len()];
+            let t = 0.05 + 0.93 * u1;
+            let p = unit(add(scale(cv, 1.0 - t), scale(b, t)));
+            let margin = contain::planar_signed_dist(&c, p)?;
+            if margin < contain::STRICT {
+                st.hit("in-rounding-band-or-outside(counted, not asserted):between-centre-and-reported-ring");
+                continue;
+            }
+            let (lon, lat) = lonlat_of_vec(p);
+            lookup_expect(lon, lat.clamp(-90.0, 90.0), id, &c, "point between the reported centre and the reported boundary", margin)?;
+            st.hit("asserted:between-centre-and-reported-ring");
+            st.eval();
+            if c.res >= 2 {
+                st.nontrivial(&(id, p[0].to_bits(), p[1].to_bits()));
+            }
+            continue;
+        }
+        let q = match kind % 4 {
             0 => {
                 let s: f64 = w.iter().take(n).map(|x| x + 1e-6).sum();
                 let mut q = [0.0, 0.0];
@@ -103,7 +125,7 @@ fn check_case(case: &Case, st: &mut Stats) -> Result<(), String> {
             }
         };
         let margin = convex_signed_dist(&pent, q);
-        let kind_name = ["convex-combination", "1e-4-from-a-corner", "just-inside-an-edge"][*kind as usize % 3];
+        let kind_name = ["convex-combination", "1e-4-from-a-corner", "just-inside-an-edge"][*kind as usize % 4];
         if margin < contain::STRICT {
             st.hit(&format!("in-rounding-band(counted, not asserted):{}", kind_name));
             continue;
@@ -131,7 +153,7 @@ pub fn run(tier: Tier, seed: u64) -> Report {
         seed,
         tier.pick(30_000, 800_000),
         || {
-            (picks(0, 29, 4), proptest::collection::vec((0u8..3, 0u8..5, 0.0f64..1.0, 0.0f64..1.0, [0.0f64..1.0, 0.0f64..1.0, 0.0f64..1.0, 0.0f64..1.0, 0.0f64..1.0]), 4..=4))
+            (picks(0, 29, 4), proptest::collection::vec((0u8..4, 0u8..5, 0.0f64..1.0, 0.0f64..1.0, [0.0f64..1.0, 0.0f64..1.0, 0.0f64..1.0, 0.0f64..1.0, 0.0f64..1.0]), 4..=4))
                 .prop_map(|(pick, points)| Case { pick, points })
                 .boxed()
         },
